@@ -115,6 +115,11 @@ def hostile_fp():
             yield ["fp2ieee", A]
             yield ["fpisnan", A]
             yield ["ite", ["fpisnan", A], A, ["fpneg", A]]
+    # integers as float constants, beyond every float's range too
+    for srt in "FD":
+        for n_ in (0, 1, -1, 2**24 + 1, 2**53 + 1, 2**128, -(2**128), 2**1024 - 1, 2**1024, 10**400, -(10**400), 10**5000):
+            yield ["fpv_int", n_, srt]
+            yield ["fpv_int@op", n_, srt]
     # unsupported float sizes: documented ClaripyOperationError
     for w in (8, 16, 31, 33, 128):
         yield ["raw2fp@meth", ["bvv", 1, w], "F"]
